@@ -17,7 +17,7 @@ CANARY_RLIMIT = 20
 EXEC_FUNCS = ['DataNode::update_size_internal', 'Node::new', 'Node::new_data_node', 'Node::size', 'Node::rotate_left', 'Node::rotate_right',
               'Node::balance', 'Node::insert_simple', 'Node::remove_min', 'Node::remove_existing_node', 'Node::unwrap_to_data',
               'Node::join', 'Node::split', 'Node::join_without_key', 'WBTreeMap::new', 'WBTreeMap::insert', 'WBTreeMap::get',
-              'WBTreeMap::contains_key', 'WBTreeMap::is_empty', 'WBTreeMap::len', 'WBTreeMap::clear', 'WBTreeMap::remove', 'Node::union', 'WBTreeMap::union', 'Node::difference', 'WBTreeMap::difference']
+              'WBTreeMap::contains_key', 'WBTreeMap::is_empty', 'WBTreeMap::len', 'WBTreeMap::clear', 'WBTreeMap::remove', 'Node::union', 'WBTreeMap::union', 'Node::difference', 'WBTreeMap::difference', 'WBTreeMap::get_mut']
 
 DROPPED = ['#[cfg(test)] mod tests', 'impl Debug for Node / WBTreeMap', '`use` lines (re-stated in the header)',
            'fn apply_single_mapping / apply_mappings bodies (apply_mappings is declared by an empty contract; only reachable through Node::Mapping, which wf excludes)',
